@@ -14,6 +14,7 @@ mod fam_ref;
 mod fam_pgn;
 mod fam_lichess;
 mod fam_uci;
+mod fam_consoletx;
 mod gen;
 include!("families.rs");
 
